@@ -522,3 +522,120 @@ func c04StoreMismatch(node *simNode, st *c04State, topic string, data []byte) st
 	_ = strings.Join
 	return ""
 }
+
+// TestC04_History: the verdict must follow the receiver's *current* database
+// state. One long-lived node sees a history of state changes (DKG restarts
+// with fresh key material, alternating success / failure, keys being stored)
+// interleaved with messages made from the key material of any attempt.
+func TestC04_History(t *testing.T) {
+	rec := recorder("C04")
+	rec.AddRule("history variant: one long-lived core keyper node; a generated history interleaves receiver state changes (the keyper set's key generation is restarted: new eon row, then failure or success with the other of two deterministic key sets; a key gets stored) with key-shares / keys messages built from either key set; the reference clauses are evaluated against the state at the moment of each message; non-trivial = a message validated after at least one restart")
+	ctx := context.Background()
+	runRapid(t, N(150, 3000), func(rt *rapid.T) {
+		maxKeys := uint64(4)
+		node := newSimNode(flCore, 0, maxKeys)
+		defer node.Close()
+		n := rapid.IntRange(2, 4).Draw(rt, "n")
+		th := rapid.IntRange(1, n).Draw(rt, "t")
+		fix := getEonFixture(n, th)
+		attempt := 0 // even attempts use fix.Real, odd ones fix.Foreign
+		keysOf := func(a int) *eonFixture {
+			if a%2 == 0 {
+				return fix
+			}
+			return &eonFixture{N: n, T: th, Real: fix.Foreign, Foreign: fix.Real}
+		}
+		st := &c04State{Kind: "history", MaxKeys: maxKeys, N: n, T: th, Members: seq(n), MePos: 0, MeKey: 0, CfgIdx: 1, Fix: keysOf(0), Stored: map[string][]byte{}, SetKnown: true}
+		q := corekeyper.New(node.DB.Pool)
+		must := func(err error) {
+			if err != nil {
+				rt.Fatalf("setup: %v", err)
+			}
+		}
+		must(q.InsertBatchConfig(ctx, corekeyper.InsertBatchConfigParams{KeyperConfigIndex: 1, Height: 1, Keypers: addrStrings(st.Members), Threshold: int32(th), Started: true, ActivationBlockNumber: 100}))
+		eon := int64(10)
+		pending := false
+		startEon := func() {
+			eon++
+			attempt++
+			must(q.InsertEon(ctx, corekeyper.InsertEonParams{Eon: eon, Height: eon, ActivationBlockNumber: 100, KeyperConfigIndex: 1}))
+			st.HasSuccess, pending = false, true
+			st.Fix = keysOf(attempt)
+		}
+		finish := func(success bool) {
+			es := &eonSetup{KeyperConfigIndex: 1, Eon: eon, Activation: 100, Members: st.Members, Threshold: th, Keys: st.Fix.Real}
+			must(writeDKGResult(ctx, node.DB, es, 0, success))
+			st.HasSuccess, pending = success, false
+		}
+		// first attempt
+		must(q.InsertEon(ctx, corekeyper.InsertEonParams{Eon: eon, Height: eon, ActivationBlockNumber: 100, KeyperConfigIndex: 1}))
+		finish(rapid.IntRange(0, 3).Draw(rt, "firstOK") > 0)
+		var desc []string
+		restarts := 0
+		nt := false
+		steps := rapid.IntRange(2, 10).Draw(rt, "steps")
+		for i := 0; i < steps; i++ {
+			l := fmt.Sprintf("h%d", i)
+			switch act := rapid.SampledFrom([]string{"msg", "msg", "msg", "restart", "finish"}).Draw(rt, l); {
+			case act == "restart" && !pending:
+				startEon()
+				restarts++
+				desc = append(desc, fmt.Sprintf("restart(e%d)", eon))
+			case act == "finish" && pending:
+				ok := rapid.IntRange(0, 3).Draw(rt, l+"ok") > 0
+				finish(ok)
+				desc = append(desc, fmt.Sprintf("finish(e%d,%v)", eon, ok))
+			default:
+				// a valid message built from the key material of the current or of the previous attempt
+				from := attempt
+				if rapid.Bool().Draw(rt, l+"old") && attempt > 0 {
+					from = attempt - 1
+				}
+				src := keysOf(from)
+				sender := rapid.IntRange(1, n-1).Draw(rt, l+"s")
+				id := c04Identity(flCore, rapid.IntRange(0, 2).Draw(rt, l+"id"))
+				var data []byte
+				topic := kprtopics.DecryptionKeyShares
+				if rapid.Bool().Draw(rt, l+"shares") {
+					m := &p2pmsg.DecryptionKeyShares{InstanceId: simInstanceID, Eon: 1, KeyperIndex: uint64(sender), Shares: []*p2pmsg.KeyShare{{IdentityPreimage: id, Share: src.Real.EpochSecretKeyShare(identitypreimage.IdentityPreimage(id), sender).Marshal()}}}
+					data = mustMarshalP2P(m)
+				} else {
+					topic = kprtopics.DecryptionKeys
+					k, err := src.Real.EpochSecretKey(identitypreimage.IdentityPreimage(id))
+					must(err)
+					data = mustMarshalP2P(&p2pmsg.DecryptionKeys{InstanceId: simInstanceID, Eon: 1, Keys: []*p2pmsg.Key{{IdentityPreimage: id, Key: k.Marshal()}}})
+				}
+				bad := st.refClauses(topic, data)
+				v := node.Validate(topic, data)
+				desc = append(desc, fmt.Sprintf("%s(keys of attempt %d, current %d)->%s", topic, from, attempt, v))
+				hist := fmt.Sprintf("n=%d t=%d | %s", n, th, strings.Join(desc, " ; "))
+				if v.Panicked != nil {
+					fatalf(rt, "validator-panic", "%v\nhistory: %s", v.Panicked, hist)
+				}
+				if len(bad) == 0 && !v.Accepted() {
+					fatalf(rt, "valid-message-rejected", "message satisfying every clause in the current state got %s\nhistory: %s", v, hist)
+				}
+				if len(bad) > 0 && v.Accepted() {
+					fatalf(rt, "invalid-message-accepted", "message violating %v in the current state was accepted\nhistory: %s", bad, hist)
+				}
+				if restarts > 0 {
+					nt = true
+				}
+				if len(bad) == 0 {
+					// handle it, so that shares / keys accumulate as on a live node
+					h := node.Handle(topic, data)
+					if h.Panicked != nil || h.Err != nil {
+						fatalf(rt, "handler-failed-on-accepted", "%v %v\nhistory: %s", h.Err, h.Panicked, hist)
+					}
+					for _, r := range node.DB.Srv.Rows("decryption_key") {
+						st.Stored[string(r["epoch_id"].([]byte))] = r["decryption_key"].([]byte)
+					}
+				}
+			}
+		}
+		if !checkEngine(t, rec, node.DB) {
+			rt.Fatalf("inconclusive")
+		}
+		rec.Case(fmt.Sprintf("hist n=%d t=%d | %s", n, th, strings.Join(desc, " ; ")), nt, "history", fmt.Sprintf("restarts:%d", min(restarts, 3)))
+	})
+}
